@@ -111,14 +111,33 @@ def native_replay(code, timeout=300):
 
 
 # ---------------------------------------------------------------- pool
+class TaskTimeout(Exception):
+    pass
+
+
+def _alarm(signum, frame):
+    raise TaskTimeout()
+
+
+TASK_LIMIT_S = int(os.environ.get('VERIF_TASK_LIMIT_S', '900'))
+
+
 def _run_task(task):
+    import signal
     modname, fname, args = task
     t0 = time.time()
     try:
+        signal.signal(signal.SIGALRM, _alarm); signal.alarm(TASK_LIMIT_S)
         import importlib
         mod = importlib.import_module(modname)
         obs = getattr(mod, fname)(*args)
+        signal.alarm(0)
+        if os.environ.get('VERIF_VERBOSE'):
+            print(f'  task {fname}{str(args)[:100]} {time.time() - t0:.1f}s {[o.status for o in obs if o.status != "discharged"][:3]}', flush=True)
         return obs
+    except TaskTimeout:
+        return [Ob(name=f'task:{fname}{args!r}'[:160], function=modname, engine='-', strength=B, status='unknown',
+                   detail=f'task exceeded {TASK_LIMIT_S}s', time=time.time() - t0)]
     except Exception:
         return [Ob(name=f'task:{fname}{args!r}'[:120], function=modname, engine='-', strength=B, status='error',
                    detail=traceback.format_exc()[-3000:], time=time.time() - t0)]
@@ -132,7 +151,7 @@ def run_tasks(tasks, procs=None):
     else:
         ctx = mp.get_context('spawn' if os.environ.get('VERIF_SPAWN') == '1' else 'fork')
         with ctx.Pool(procs, maxtasksperchild=1) as pool:
-            res = pool.map(_run_task, tasks, chunksize=1)
+            res = list(pool.imap_unordered(_run_task, tasks, chunksize=1))
     return [o for r in res for o in r]
 
 
